@@ -214,6 +214,10 @@ struct SessionState {
     deferred_read: DeferredRead,
     last_recorded_time: Option<tokio::time::Instant>,
     last_broadcast_type: Option<BroadcastConfirmMode>,
+    /// sequence number of the last solicited response that indicated the pending broadcast (IIN1.0)
+    broadcast_reported_sol: Option<Sequence>,
+    /// sequence number of the last unsolicited response that indicated the pending broadcast (IIN1.0)
+    broadcast_reported_unsol: Option<Sequence>,
 }
 
 impl SessionState {
@@ -228,6 +232,20 @@ impl SessionState {
             deferred_read: DeferredRead::new(max_read_headers),
             last_recorded_time: None,
             last_broadcast_type: None,
+            broadcast_reported_sol: None,
+            broadcast_reported_unsol: None,
+        }
+    }
+
+    /// a confirmation ends the broadcast indication only if the confirmed response carried it
+    fn on_confirm(&mut self, unsolicited: bool, seq: Sequence) {
+        let reported = if unsolicited {
+            self.broadcast_reported_unsol
+        } else {
+            self.broadcast_reported_sol
+        };
+        if reported == Some(seq) {
+            self.last_broadcast_type = None;
         }
     }
 
@@ -395,6 +413,9 @@ impl OutstationSession {
         database: &DatabaseHandle,
     ) -> Result<Response, LinkError> {
         response.header.iin |= self.get_response_iin(database);
+        if response.header.iin.iin1.get_broadcast() {
+            self.state.broadcast_reported_unsol = Some(response.seq());
+        }
 
         self.repeat_unsolicited(io, writer, response).await?;
 
@@ -431,6 +452,9 @@ impl OutstationSession {
         database: &DatabaseHandle,
     ) -> Result<Response, LinkError> {
         response.header.iin |= self.get_response_iin(database);
+        if response.header.iin.iin1.get_broadcast() {
+            self.state.broadcast_reported_sol = Some(response.seq());
+        }
 
         // Determine if we need to ask for confirmation due to broadcast
         if let Some(BroadcastConfirmMode::Mandatory) = self.state.last_broadcast_type {
@@ -760,7 +784,7 @@ impl OutstationSession {
         match self.classify(info, request) {
             FragmentType::UnsolicitedConfirm(seq) => {
                 if seq == uns_ecsn {
-                    self.state.last_broadcast_type = None;
+                    self.state.on_confirm(true, seq);
                     self.info.unsolicited_confirmed(seq);
                     Ok(UnsolicitedWaitResult::Complete(
                         UnsolicitedResult::Confirmed,
@@ -773,9 +797,9 @@ impl OutstationSession {
                     Ok(UnsolicitedWaitResult::ReadNext)
                 }
             }
-            FragmentType::SolicitedConfirm(_) => {
+            FragmentType::SolicitedConfirm(seq) => {
                 if let Some(BroadcastConfirmMode::Mandatory) = self.state.last_broadcast_type {
-                    self.state.last_broadcast_type = None
+                    self.state.on_confirm(false, seq);
                 } else {
                     tracing::warn!("ignoring solicited confirm");
                 }
@@ -1931,6 +1955,8 @@ impl OutstationSession {
         request: Request<'_>,
     ) {
         self.state.last_broadcast_type = Some(mode);
+        self.state.broadcast_reported_sol = None;
+        self.state.broadcast_reported_unsol = None;
         let action = self
             .process_broadcast_get_action(frame_id, database, request)
             .await;
@@ -2039,7 +2065,7 @@ impl OutstationSession {
                 .await?
             {
                 Confirm::Yes(respond_to) => {
-                    self.state.last_broadcast_type = None;
+                    self.state.on_confirm(false, series.ecsn);
 
                     database
                         .clear_written_events(self.application.as_mut())
